@@ -2,6 +2,7 @@
 import datetime
 import threading
 
+import common
 import simcheck
 
 META = {
@@ -186,7 +187,23 @@ def run(res, tier, seed, model_ok, search):
                 "itself; plus a 32-thread stress run on the real control. non-trivial = a transaction was counted; distinct = scenario index")
     simcheck.run(res, "C18", tier, seed, model_ok, search, n_quick=400, n_thorough=10000)
     stress(res)
+    # live mode: what the real BetfairExecution handlers charge for packages of 1..3 orders of every kind with every pattern of
+    # per-instruction failures, timeouts and API errors (the live histories of C12), against the instructions the exchange double
+    # received in answered calls and the failures it reported
+    from props import C12
+    sub = common.Result()
+    C12.run_live(sub, tier, seed, False, search)
+    res.evaluations += sub.evaluations
+    res.distribution["live-packages"] += sub.evaluations
+    for v in sub.violations:
+        if v["signature"] in ("transaction-count", "replace-of-completed-order-counted"):
+            v = dict(v)
+            v["replay"] = dict(v.get("replay") or {}, domain="live")
+            res.violations.append(v)
 
 
 def replay(payload):
+    if (payload.get("replay") or {}).get("domain") == "live":
+        from props import C12
+        return C12.replay(payload)
     return simcheck.generic_replay("C18", payload)
